@@ -12,6 +12,7 @@ import Oracle.C09
 import Oracle.C20
 import Oracle.C12
 import Oracle.Emit
+import Oracle.Conv
 /-!
 Line-protocol driver.  stdin: one JSON object per line with a field "op" = "<component>.<operation>";
 stdout: one JSON line per input: the model's answer, or {"oracle_error": "..."}.
@@ -37,6 +38,7 @@ def dispatch (j : Json) : R Json := do
   else if op.startsWith "c09." then C09.handle op j
   else if op.startsWith "c20." then C20.handle op j
   else if op.startsWith "c12." then C12.handle op j
+  else if op.startsWith "conv." then Conv.handle op j
   else throw s!"unknown component in op {op}"
 
 partial def loop (h : IO.FS.Stream) (out : IO.FS.Stream) : IO Unit := do
